@@ -41,6 +41,9 @@ def run(ck):
     B = 400
     batches = [{"id": i, "batch": cases[k:k + B], "seed": ck.seed * 1000003 + i, "vectors": 2 if quick else 8, "script_every": 7}
                for i, k in enumerate(range(0, len(cases), B))]
+    # deterministic sweep per verb: flags x widths x precisions (also beyond the formatter's fixed scratch buffers) x every table value
+    for v in ["v", "T", "t", "b", "c", "d", "o", "O", "q", "x", "X", "U", "e", "E", "f", "F", "g", "G", "s", "z"]:
+        batches.append({"id": len(batches), "sweep": v, "seed": ck.seed})
     res = vlib.run_cases(ck, "format", batches, nproc=14, timeout=3000)
     stats = {}
     keycount, seen = {}, set()
